@@ -1,5 +1,6 @@
 SPECIFICATION TraceSpec
 CONSTANTS
+  EndKinds = {"commit", "rollback", "commitf"}
   StepKinds = {"q", "upd", "ins", "del", "ups", "dup", "ddl", "multi", "prep", "prepx", "prepq", "updw", "qfu", "drop"}
   MaxSteps = 100
   Gtx = {TRUE, FALSE}
